@@ -87,3 +87,38 @@ package sfnt
 //@     invariant forall i int :: 0 <= i && i < len(s.glyphs) ==> s.glyphs[i] < len(oldOutlines.Glyphs) && newOutlines.Widths[i] == oldOutlines.Widths[s.glyphs[i]]
 //@     invariant forall i int :: 0 <= i && i < old(len(s.glyphs)) ==> i < len(s.glyphs) && s.glyphs[i] == old(s.glyphs[i])
 //@     invariant forall i int :: 0 <= i && i < iter ==> newOutlines.Names[i] == oldOutlines.Names[s.glyphs[i]]
+
+// SubsetCFF: glyph i of the subset is glyph s.glyphs[i] of the original; every
+// private dictionary (and, for CID-keyed fonts, font matrix) that is carried
+// over keeps its content under its new index; built-in encoding and CIDs are
+// re-keyed.
+//@ pred cffOK(o *cff.Outlines) = o != nil && o.FDSelect != nil && len(o.Glyphs) <= 65536 && (o.ROS != nil ==> len(o.FontMatrices) == len(o.Private)) && (o.GIDToCID != nil ==> len(o.GIDToCID) == len(o.Glyphs))
+//@ func (s *subsetter) SubsetCFF(oldOutlines *cff.Outlines) (out *cff.Outlines)   props: C10
+//@   requires bij(s) && cffOK(oldOutlines) && forall i int :: 0 <= i && i < len(s.glyphs) ==> s.glyphs[i] < len(oldOutlines.Glyphs)
+//@   ensures out != nil && fresh(out) && len(out.Glyphs) == len(s.glyphs) && forall i int :: 0 <= i && i < len(s.glyphs) ==> out.Glyphs[i] == oldOutlines.Glyphs[s.glyphs[i]]
+//@   ensures oldOutlines.GIDToCID != nil ==> len(out.GIDToCID) == len(s.glyphs) && forall i int :: 0 <= i && i < len(s.glyphs) ==> out.GIDToCID[i] == oldOutlines.GIDToCID[s.glyphs[i]]
+//@   ensures oldOutlines.Encoding != nil ==> len(out.Encoding) == len(oldOutlines.Encoding) && forall c int :: 0 <= c && c < len(out.Encoding) ==> out.Encoding[c] == ite(has(s.newGid, oldOutlines.Encoding[c]), s.newGid[oldOutlines.Encoding[c]], 0)
+//@   modifies nothing
+//@   loop 0
+//@     invariant newOutlines != nil && fresh(newOutlines) && len(newOutlines.Glyphs) == len(s.glyphs) && fresh(newOutlines.Glyphs) && off(newOutlines.Glyphs) == 0
+//@     invariant forall i int :: 0 <= i && i < iter ==> newOutlines.Glyphs[i] == oldOutlines.Glyphs[s.glyphs[i]]
+//@   loop 1
+//@     invariant newOutlines != nil && fresh(newOutlines) && len(newOutlines.Glyphs) == len(s.glyphs) && pIdxMap != nil && fresh(pIdxMap) && (isnil(newOutlines.Private) || fresh(newOutlines.Private)) && (isnil(newOutlines.FontMatrices) || fresh(newOutlines.FontMatrices))
+//@     invariant oldOutlines.ROS != nil ==> len(newOutlines.FontMatrices) == len(newOutlines.Private)
+//@     invariant forall p int :: has(pIdxMap, p) ==> 0 <= p && p < len(oldOutlines.Private) && 0 <= pIdxMap[p] && pIdxMap[p] < len(newOutlines.Private) && newOutlines.Private[pIdxMap[p]] == oldOutlines.Private[p]
+//@     invariant oldOutlines.ROS != nil ==> forall p int :: has(pIdxMap, p) ==> newOutlines.FontMatrices[pIdxMap[p]] == oldOutlines.FontMatrices[p]
+//@     invariant forall i int :: 0 <= i && i < len(s.glyphs) ==> newOutlines.Glyphs[i] == oldOutlines.Glyphs[s.glyphs[i]]
+//@     exit_assert forall p int :: has(pIdxMap, p) ==> newOutlines.Private[pIdxMap[p]] == oldOutlines.Private[p] && (oldOutlines.ROS != nil ==> newOutlines.FontMatrices[pIdxMap[p]] == oldOutlines.FontMatrices[p])
+//@   loop 2
+//@     invariant newOutlines != nil && fresh(newOutlines) && len(newOutlines.Glyphs) == len(s.glyphs) && len(fdSel) == len(s.glyphs) && fresh(fdSel) && pIdxMap != nil
+//@     invariant forall i int :: 0 <= i && i < len(s.glyphs) ==> newOutlines.Glyphs[i] == oldOutlines.Glyphs[s.glyphs[i]]
+//@   loop 3
+//@     invariant newOutlines != nil && fresh(newOutlines) && len(newOutlines.Glyphs) == len(s.glyphs) && len(newOutlines.Encoding) == len(oldOutlines.Encoding) && fresh(newOutlines.Encoding) && off(newOutlines.Encoding) == 0 && oldOutlines.Encoding != nil
+//@     invariant forall i int :: 0 <= i && i < len(s.glyphs) ==> newOutlines.Glyphs[i] == oldOutlines.Glyphs[s.glyphs[i]]
+//@     invariant forall c int :: 0 <= c && c < iter ==> newOutlines.Encoding[c] == ite(has(s.newGid, oldOutlines.Encoding[c]), s.newGid[oldOutlines.Encoding[c]], 0)
+//@     invariant forall c int :: iter <= c && c < len(newOutlines.Encoding) ==> newOutlines.Encoding[c] == 0
+//@   loop 4
+//@     invariant newOutlines != nil && fresh(newOutlines) && len(newOutlines.Glyphs) == len(s.glyphs) && len(newOutlines.GIDToCID) == len(s.glyphs) && fresh(newOutlines.GIDToCID) && off(newOutlines.GIDToCID) == 0 && oldOutlines.GIDToCID != nil
+//@     invariant forall i int :: 0 <= i && i < len(s.glyphs) ==> newOutlines.Glyphs[i] == oldOutlines.Glyphs[s.glyphs[i]]
+//@     invariant oldOutlines.Encoding != nil ==> len(newOutlines.Encoding) == len(oldOutlines.Encoding) && forall c int :: 0 <= c && c < len(newOutlines.Encoding) ==> newOutlines.Encoding[c] == ite(has(s.newGid, oldOutlines.Encoding[c]), s.newGid[oldOutlines.Encoding[c]], 0)
+//@     invariant forall i int :: 0 <= i && i < iter ==> newOutlines.GIDToCID[i] == oldOutlines.GIDToCID[s.glyphs[i]]
